@@ -15,4 +15,3 @@ macro_rules! tp {
         println!("TRANSPORT {}={:?}", $k, $v);
     };
 }
-pub const QV: usize = bls12_381_plus::Q as usize;
